@@ -406,7 +406,13 @@ def render_file(struct, flip, variant=0):
     ch = r.items(0, struct)
     root = r.node(None, None, ch)
     r.stats["imports_variant_%d" % variant] = 1
-    return "\n".join(r.lines) + "\n", root, r.pos, r.stats, IMPORT_VARIANTS[variant][1]
+    text = "\n".join(r.lines) + "\n"
+    if variant % 3 == 1:
+        # an item at the end of the file that the bundled grammar cannot parse (stable Rust 2024 syntax): the tree has an ERROR
+        # node there and is perfectly good everywhere else
+        text += "\nunsafe extern \"C\" {\n    pub safe fn c_hook();\n}\n"
+        r.stats["file ends with an item the grammar cannot parse"] = 1
+    return text, root, r.pos, r.stats, IMPORT_VARIANTS[variant][1]
 
 
 def gen_project(rng, alphabet):
